@@ -7,6 +7,7 @@ import (
 	"fmt"
 	"hash/fnv"
 	"reflect"
+	"sort"
 	"strings"
 	"sync"
 	"time"
@@ -33,6 +34,12 @@ type Case struct {
 	Register     []string   `json:"register,omitempty"` // object types bound with RegisterType
 	Faults       []hx.Fault `json:"faults,omitempty"`
 	Echo         bool       `json:"echo,omitempty"`
+	// Universe: reflection nodes are instances of the fixed Go types of universe.go instead of
+	// reflect.StructOf types; GoType maps a GraphQL object type to its Go type ("Alpha", ...);
+	// Rename maps "Type.field" to the Go field/method it is registered to (RegisterField).
+	Universe bool              `json:"universe,omitempty"`
+	GoType   map[string]string `json:"go_type,omitempty"`
+	Rename   map[string]string `json:"rename,omitempty"`
 	// Text overrides the rendered document (replay of shrunk / hand-written requests).
 	Text string `json:"text,omitempty"`
 	Note string `json:"note,omitempty"`
@@ -156,6 +163,13 @@ func (w *World) resolveNode(strategy string, id int, field *ggql.Field, args map
 	}
 	n := w.C.Graph.Nodes[id]
 	v, ok := n.F[field.Name]
+	if w.C.Universe && n.Type != "" {
+		if fd := w.C.Schema.Type(n.Type).Field(field.Name); fd != nil {
+			if cv, isComputed := UniverseCompute(n, fd, args); isComputed {
+				v, ok = cv, true
+			}
+		}
+	}
 	if !ok {
 		return nil, nil
 	}
@@ -225,7 +239,7 @@ func (w *World) nodeValue(id int) interface{} {
 		return w.rnodes[id]
 	case "A":
 		return w.anodes[id]
-	default: // X, AX
+	default: // X, AX, UR
 		return w.structs[id].Interface()
 	}
 }
@@ -411,6 +425,10 @@ func NewWorld(c *Case) (*World, error) {
 	ggql.Sort = true
 	ggql.Relaxed = false
 	ggql.MaxResolveDepth = 100
+	if c.Universe {
+		cc := c
+		universeSlotOf = func(tn, f string) string { return slotFor(cc, tn, f) }
+	}
 	w := &World{C: c, faults: map[string]hx.Fault{}, structs: map[int]reflect.Value{}, byPtr: map[interface{}]int{},
 		stypes: map[string]reflect.Type{}, rnodes: map[int]*RNode{}, anodes: map[int]*ANode{}}
 	for _, f := range c.Faults {
@@ -424,7 +442,17 @@ func NewWorld(c *Case) (*World, error) {
 			w.rnodes[n.ID] = &RNode{w: w, id: n.ID}
 		case "A":
 			w.anodes[n.ID] = &ANode{id: n.ID}
+		case "UR":
+			w.structs[n.ID] = w.newUniverseResolver(c.GoType[n.Type], n.ID)
 		case "X", "AX":
+			if c.Universe && n.Type != "" {
+				pv := newUniverseValue(c.GoType[n.Type], c.Assign[n.ID] == "RX")
+				w.structs[n.ID] = pv
+				if c.Assign[n.ID] == "AX" {
+					w.byPtr[pv.Interface()] = n.ID
+				}
+				continue
+			}
 			var st reflect.Type
 			if n.Type == "" {
 				st = rootStructType
@@ -443,7 +471,7 @@ func NewWorld(c *Case) (*World, error) {
 	// phase 2: fill structs
 	for _, n := range g.Nodes {
 		pv, ok := w.structs[n.ID]
-		if !ok {
+		if !ok || c.Assign[n.ID] == "UR" {
 			continue
 		}
 		sv := pv.Elem()
@@ -456,6 +484,10 @@ func NewWorld(c *Case) (*World, error) {
 			continue
 		}
 		td := c.Schema.Type(n.Type)
+		if c.Universe {
+			w.fillUniverse(n, td, pv, c.Assign[n.ID] == "AX")
+			continue
+		}
 		for _, f := range td.Fields {
 			var x interface{}
 			if c.Assign[n.ID] == "AX" {
@@ -474,6 +506,31 @@ func NewWorld(c *Case) (*World, error) {
 	}
 	if err := w.Root.ParseString(c.Schema.SDL(hx.SDLOpts{})); err != nil {
 		return nil, fmt.Errorf("schema rejected: %w\n%s", err, c.Schema.SDL(hx.SDLOpts{}))
+	}
+	if c.Universe {
+		for _, tn := range c.Register {
+			if err := w.Root.RegisterType(newUniverseValue(c.GoType[tn], false).Interface(), tn); err != nil {
+				return nil, fmt.Errorf("RegisterType(%s): %w", tn, err)
+			}
+		}
+		keys := make([]string, 0, len(c.Rename))
+		for k := range c.Rename {
+			keys = append(keys, k)
+		}
+		sort.Strings(keys)
+		for _, k := range keys {
+			parts := strings.SplitN(k, ".", 2)
+			goName := c.Rename[k]
+			var order []string
+			if i := strings.IndexByte(goName, '('); i >= 0 {
+				order = strings.Split(strings.TrimSuffix(goName[i+1:], ")"), ",")
+				goName = goName[:i]
+			}
+			if err := w.Root.RegisterField(parts[0], parts[1], goName, order...); err != nil {
+				return nil, fmt.Errorf("RegisterField(%s, %s): %w", k, goName, err)
+			}
+		}
+		return w, nil
 	}
 	for _, tn := range c.Register {
 		for _, n := range g.Nodes {
